@@ -67,6 +67,14 @@ pub struct Case {
 	pub boms: Vec<RawPom>,
 	pub roots: Vec<(u16, u16, u8)>,
 	pub n_repos: u8,
+	/// parents of BOMs (packaging pom, managed entries only, no imports; a BOM parent's parent has a higher index): a BOM
+	/// whose `parent` is set inherits their management and hands it on to whoever imports it
+	#[serde(default)]
+	pub bom_parents: Vec<RawPom>,
+	/// > 0: a line of that many artifacts, each depending on the next, hangs below an additional root; every ninth link
+	/// and the far end also depend on one of the libraries (the same libraries the other roots reach at small depth)
+	#[serde(default)]
+	pub chain: u16,
 }
 
 fn raw_dep() -> impl Strategy<Value = RawDep> {
@@ -90,8 +98,10 @@ fn strategy() -> impl Strategy<Value = Case> {
 		proptest::collection::vec(raw_pom(0), 0..3),
 		proptest::collection::vec((any::<u16>(), any::<u16>(), prop_oneof![4 => Just(0u8), 3 => Just(1u8), 1 => Just(2u8), 1 => Just(4u8)]), 1..4),
 		1u8..4,
+		proptest::collection::vec(raw_pom(0), 0..3),
+		prop_oneof![12 => Just(0u16), 2 => 1u16..=40, 1 => 28u16..=36, 2 => 60u16..=70, 1 => 96u16..=104, 1 => 124u16..=132, 1 => 40u16..=300],
 	)
-		.prop_map(|(libs, parents, boms, roots, n_repos)| Case { libs, parents, boms, roots, n_repos })
+		.prop_map(|(libs, parents, boms, roots, n_repos, bom_parents, chain)| Case { libs, parents, boms, roots, n_repos, bom_parents, chain })
 }
 
 // ---------------------------------------------------------------------------------------------
@@ -239,7 +249,7 @@ struct TNode {
 }
 
 fn tree(u: &BTreeMap<(String, String, String), XPom>, coord: &Coord, scope: &str, depth: usize) -> Result<TNode, String> {
-	if depth > 40 {
+	if depth > 5000 {
 		return Err("harness: dependency chain too deep".into());
 	}
 	let eff = effective(u, &coord.gav(), 0)?;
@@ -354,9 +364,18 @@ fn build_universe(case: &Case) -> Result<Universe, String> {
 		}
 		v
 	};
+	// parents of BOMs
+	let nbp = case.bom_parents.len();
+	let bom_parent_gav = |i: usize| (format!("org.bom"), format!("bomparent{i}"), "1".to_string());
+	for (i, bp) in case.bom_parents.iter().enumerate() {
+		let (g, a, v) = bom_parent_gav(i);
+		let parent = bp.parent.and_then(|x| if i + 1 < nbp { Some(bom_parent_gav(i + 1 + idx(x, nbp - i - 1))) } else { None });
+		poms.insert((g.clone(), a.clone(), v.clone()), XPom { group: g, artifact: a, version: v, write_group: true, write_version: true, packaging: Some("pom".into()), parent, managed: managed_of(bp, 0), deps: vec![], repos: repos_of(bp.repos) });
+	}
 	// BOMs
 	for (i, b) in case.boms.iter().enumerate() {
 		let (g, a, v) = bom_gav(i);
+		let bom_parent = b.parent.and_then(|x| if nbp > 0 { Some(bom_parent_gav(idx(x, nbp))) } else { None });
 		let mut managed = managed_of(b, 0);
 		for imp in &b.imports {
 			if i + 1 < nb {
@@ -365,7 +384,7 @@ fn build_universe(case: &Case) -> Result<Universe, String> {
 				managed.push(XDep { group: ig, artifact: ia, version: Some(iv), type_: Some("pom".into()), classifier: None, scope: Some("import".into()), optional: None });
 			}
 		}
-		poms.insert((g.clone(), a.clone(), v.clone()), XPom { group: g, artifact: a, version: v, write_group: true, write_version: true, packaging: Some("pom".into()), parent: None, managed, deps: vec![], repos: repos_of(b.repos) });
+		poms.insert((g.clone(), a.clone(), v.clone()), XPom { group: g, artifact: a, version: v, write_group: true, write_version: true, packaging: Some("pom".into()), parent: bom_parent, managed, deps: vec![], repos: repos_of(b.repos) });
 	}
 	// parents (their own dependencies point to the last two libraries only, children never re-declare those)
 	let reserved_from = nl.saturating_sub(2).max(1);
@@ -430,8 +449,22 @@ fn build_universe(case: &Case) -> Result<Universe, String> {
 			poms.insert((g.clone(), a.clone(), ver.clone()), XPom { group: g, artifact: a, version: ver, write_group: true, write_version: true, packaging: None, parent, managed, deps, repos: repos_of(raw.repos) });
 		}
 	}
+	// a long line of artifacts below one more root
+	let chain = case.chain as usize;
+	for k in 0..chain {
+		let mut deps = Vec::new();
+		if k + 1 < chain {
+			deps.push(XDep { group: "org.chain".into(), artifact: format!("link{}", k + 1), version: Some("1.0".into()), type_: None, classifier: None, scope: if k % 7 == 3 { Some("runtime".into()) } else { None }, optional: None });
+		}
+		if k + 1 == chain || k % 9 == 4 {
+			let l = (k * 5 + 1) % nl;
+			let (dg, da, dv) = lib_gav(l, k % case.libs[l].len());
+			deps.insert((k % 2).min(deps.len()), XDep { group: dg, artifact: da, version: Some(dv), type_: None, classifier: None, scope: None, optional: None });
+		}
+		poms.insert(("org.chain".to_string(), format!("link{k}"), "1.0".to_string()), XPom { group: "org.chain".into(), artifact: format!("link{k}"), version: "1.0".into(), write_group: true, write_version: true, packaging: None, parent: None, managed: vec![], deps, repos: repos_of((k as u8).wrapping_mul(37)) });
+	}
 	// a dependency may omit its version only where the effective management has it
-	let keys: Vec<_> = poms.keys().cloned().collect();
+	let keys: Vec<_> = poms.keys().filter(|k| k.0 != "org.chain").cloned().collect();
 	for k in keys {
 		let mut p = poms[&k].clone();
 		let mut probe = p.clone();
@@ -468,6 +501,11 @@ fn build_universe(case: &Case) -> Result<Universe, String> {
 			(Coord { group: g, artifact: a, version: ver, classifier: None, type_: "jar".into() }, SCOPES[*s as usize % SCOPES.len()].to_string())
 		})
 		.collect();
+	let mut roots: Vec<(Coord, String)> = roots;
+	if chain > 0 {
+		let at = chain % (roots.len() + 1);
+		roots.insert(at, (Coord { group: "org.chain".into(), artifact: "link0".into(), version: "1.0".into(), classifier: None, type_: "jar".into() }, if chain % 3 == 0 { "runtime".to_string() } else { "compile".to_string() }));
+	}
 	Ok(Universe { poms, roots, n_repos })
 }
 
@@ -624,6 +662,13 @@ fn check(case: &Case, obs: &mut Obs) -> PropResult {
 	obs.label_if(u.poms.values().any(|p| p.parent.is_some()), "parent");
 	obs.label_if(u.poms.values().any(|p| p.managed.iter().any(|m| m.scope.as_deref() == Some("import"))), "bom_import");
 	obs.label_if(u.n_repos > 1, "several_repositories");
+	let inherits = |p: &XPom| p.parent.as_ref().map_or(false, |g| effective(&u.poms, g, 0).map_or(false, |e| !e.dm.is_empty()));
+	obs.label_if(u.poms.values().any(|p| p.artifact.starts_with("bom") && !p.artifact.starts_with("bomparent") && inherits(p)), "imported_bom_inherits_management_from_its_parent");
+	fn height(t: &TNode) -> usize {
+		1 + t.children.iter().map(height).max().unwrap_or(0)
+	}
+	let h = forest.iter().map(height).max().unwrap_or(0);
+	obs.label(format!("longest_dependency_path:{}", match h { 0..=8 => "<=8", 9..=32 => "9..32", 33..=64 => "33..64", 65..=128 => "65..128", _ => ">128" }));
 	obs.label(format!("resolved={}", expected.len().min(8)));
 	obs.nontrivial_if(by_depth || tie || managed_fill || scope_changed);
 	Ok(())
@@ -662,7 +707,7 @@ fn coord_roundtrip(c: &CoordCase, obs: &mut Obs) -> PropResult {
 }
 
 pub fn run(ctx: &mut Ctx) {
-	ctx.rule = "acyclic POM universes: 2-6 libraries in 1-2 versions each (dependencies only to higher-numbered libraries, any version -> version conflicts at different depths), 0-2 parent POMs (chains) and 0-2 BOMs (imports of further BOMs); POMs inherit group/version/dependencies/management, managed entries precede imports, dependencies omit versions only where the effective management has them, every scope, optional flags, classifier and type variants (natives, test-jar, ejb, maven-plugin, explicit jar, war: same or different artifact identity), 1-3 repositories each serving a subset; rendered to POM XML and served by an in-memory Downloader; 1-3 root dependencies with scopes. Oracle: a reference resolver written from Maven's documentation (effective POM, optional / non-transitive scope cut, scope table, breadth-first nearest-wins with declaration order, losers' subtrees discarded, first serving repository) must give exactly the same list (coordinate, scope, repository); Display/parse round trips of every result and of generated coordinates. Non-trivial = a version conflict resolved by depth or by declaration order, a managed fill-in, or a scope changed by the table; distinct by case hash".into();
+	ctx.rule = "acyclic POM universes: 2-6 libraries in 1-2 versions each (dependencies only to higher-numbered libraries, any version -> version conflicts at different depths), 0-2 parent POMs (chains) and 0-2 BOMs (imports of further BOMs; a BOM may itself have a parent, or a chain of parents, whose management it inherits and hands on); in a third of the cases one more root with a line of 1-300 artifacts below it, each depending on the next, every ninth link and the far end depending on one of the libraries; POMs inherit group/version/dependencies/management, managed entries precede imports, dependencies omit versions only where the effective management has them, every scope, optional flags, classifier and type variants (natives, test-jar, ejb, maven-plugin, explicit jar, war: same or different artifact identity), 1-3 repositories each serving a subset; rendered to POM XML and served by an in-memory Downloader; 1-3 root dependencies with scopes. Oracle: a reference resolver written from Maven's documentation (effective POM, optional / non-transitive scope cut, scope table, breadth-first nearest-wins with declaration order, losers' subtrees discarded, first serving repository) must give exactly the same list (coordinate, scope, repository); Display/parse round trips of every result and of generated coordinates. Non-trivial = a version conflict resolved by depth or by declaration order, a managed fill-in, or a scope changed by the table; distinct by case hash".into();
 	ctx.assume("supported subset only: literal versions, no exclusions/profiles/ranges; managed entries before imports; a child neither re-declares nor manages a dependency its parent chain declares");
 	ctx.assume("real Maven is not available offline: the oracle is the harness's reading of the dependency-mechanism documentation");
 	ctx.run_sub("resolution", ctx.tier.pick(60000, 1000000), strategy, check);
